@@ -229,6 +229,19 @@ func tripperWorkload(r *sim.Run) {
 	r.Logf("tripper: %d callers", callers)
 }
 
+// roVerifier verifies against one server's current key and keeps no state: it
+// may be shared by goroutines.
+type roVerifier struct{ s *world.Server }
+
+func (v roVerifier) VerifyJSONs(ctx context.Context, reqs []gmsl.VerifyJSONRequest) ([]gmsl.VerifyJSONResult, error) {
+	out := make([]gmsl.VerifyJSONResult, len(reqs))
+	for i, q := range reqs {
+		k := v.s.Current()
+		out[i].Error = gmsl.VerifyJSON(string(q.ServerName), k.ID, k.Pub, q.Message)
+	}
+	return out, nil
+}
+
 func accessorWorkload(r *sim.Run) {
 	t := r.T
 	now := time.Now()
@@ -241,6 +254,18 @@ func accessorWorkload(r *sim.Run) {
 	sk := "@u:a.example"
 	p := world.Proto{RoomID: world.FakeRoomID(t, impl, s.Name), Sender: "@u:a.example", Type: spec.MRoomMember, StateKey: &sk,
 		Content: map[string]any{"membership": "join"}, Depth: 3, Prev: []string{world.FakeEventID(t, impl, s.Name)}, Auth: []string{world.FakeEventID(t, impl, s.Name)}}
+	switch t.Intn(3) {
+	case 1: // the create event: its room ID is derived in the newest event format
+		empty := ""
+		p = world.Proto{RoomID: p.RoomID, Sender: "@u:a.example", Type: spec.MRoomCreate, StateKey: &empty, Depth: 1,
+			Content: map[string]any{"room_version": string(ver), "creator": "@u:a.example"}}
+		if impl.DomainlessRoomIDs() {
+			p.RoomID = ""
+			p.Content = map[string]any{"room_version": string(ver)}
+		}
+	case 2:
+		p.Type, p.StateKey, p.Content = "m.room.message", nil, map[string]any{"body": "x", "msgtype": "m.text"}
+	}
 	built, err := world.Build(impl, p, now, s.Name, s.Current())
 	if err != nil {
 		panic(err)
@@ -286,6 +311,13 @@ func accessorWorkload(r *sim.Run) {
 			_ = ev.Version()
 			_, _ = ev.ToHeaderedJSON()
 			_ = ev.IsSticky(now, now)
+			// signature verification reads the event through the same accessors
+			_ = gmsl.VerifyEventSignatures(context.Background(), ev, roVerifier{s}, func(roomID spec.RoomID, sender spec.SenderID) (*spec.UserID, error) {
+				return spec.NewUserID(string(sender), true)
+			})
+			_ = gmsl.VerifyAllEventSignatures(context.Background(), []gmsl.PDU{ev, ev}, roVerifier{s}, func(roomID spec.RoomID, sender spec.SenderID) (*spec.UserID, error) {
+				return spec.NewUserID(string(sender), true)
+			})
 		}()
 	}
 	wg.Wait()
